@@ -264,6 +264,14 @@ def tr (st : Style) (o : Opts) : Ctx → Schema → Ty
   | _, .dict value =>
     -- a discriminator on the value schema of `additionalProperties` is not a field extra: plain Union
     .dict (if value.isDisc then .union (value.discRefs.map .ref) else tr st o .plain value)
+  | ctx, .ndict _ =>
+    -- `type` is a list: `is_object` is false (it compares `type == "object"`), no branch of `parse_obj` /
+    -- `parse_item` looks at `additionalProperties`; `get_data_type` maps every non-null entry of the list through
+    -- the type table (`object` ↦ `Dict[str, Any]`) and sets `is_optional` for the `null` entry. The value schema
+    -- is NOT translated. A document / definition goes through `parse_root_type` (no constraint keyword is set).
+    match ctx with
+    | .top => .root {} (.opt (.dict .any))
+    | _ => .opt (.dict .any)
   | _, .ref n => .ref n
   | _, .anyOf alts => .union (trAlts st o alts)
   | _, .oneOf alts => .union (trAlts st o alts)
